@@ -241,7 +241,10 @@ func runC2S(run *vk.Run, c wcase) {
 }
 
 // handler-entry order in a sio<->sio world
-func runHandlerOrder(run *vk.Run, transports []string, emitters, burst int) {
+// big: every second event carries a ~300 KB string, so that decoding an event takes longer than the
+// dispatch grace of the library — an implementation that lets the next packet go before the
+// previous one has been decoded inverts these pairs systematically.
+func runHandlerOrder(run *vk.Run, transports []string, emitters, burst int, big bool) {
 	run.Eval(1)
 	type rec struct {
 		mu   sync.Mutex
@@ -250,8 +253,12 @@ func runHandlerOrder(run *vk.Run, transports []string, emitters, burst int) {
 		n    int
 	}
 	recs := [2]*rec{{next: make([]int, emitters)}, {next: make([]int, emitters)}}
-	handler := func(r *rec) func(g, seq int) {
-		return func(g, seq int) {
+	pad := ""
+	if big {
+		pad = strings.Repeat("0123456789abcdef\\\"\u00e9", 16000) // ~300 KB of JSON with escapes
+	}
+	handler := func(r *rec) func(g, seq int, pad string) {
+		return func(g, seq int, _ string) {
 			r.mu.Lock()
 			if seq < r.next[g] {
 				r.inv++
@@ -279,7 +286,11 @@ func runHandlerOrder(run *vk.Run, transports []string, emitters, burst int) {
 			go func(g int, emit func(string, ...any)) {
 				defer wg.Done()
 				for s := 0; s < burst; s++ {
-					emit("h", g, s)
+					if big && s%2 == 0 {
+						emit("h", g, s, pad)
+					} else {
+						emit("h", g, s, "")
+					}
 				}
 			}(g, emit)
 		}
@@ -308,13 +319,20 @@ func runHandlerOrder(run *vk.Run, transports []string, emitters, burst int) {
 			run.Count("handler_rig_incomplete", 1)
 		}
 		if inv > 0 {
-			run.Logf("handler-order inversions: %d of %d (%s, %s, %d emitters)", inv, n, dir, strings.Join(transports, "+"), emitters)
-			run.Violation(vk.Violation{Sub: "handler-order", Fields: map[string]any{"layer": "handler-entry", "rig": "sio-sio"},
-				What:    fmt.Sprintf("%d of %d handler entries (%s, %s, %d emitters) ran before an earlier event of the same emitter", inv, n, dir, strings.Join(transports, "+"), emitters),
-				Witness: map[string]any{"dir": dir, "transports": transports, "emitters": emitters, "burst": burst, "inversions": inv}})
+			// "rare": the residual of the known finding (a dispatch goroutine descheduled for longer than the
+			// grace, about 1 in 10^4 events, more under load); "systematic": at least 5 inversions and at
+			// least 2 % of the entries of this case — not explained by scheduling accidents.
+			rate := "rare"
+			if inv >= 5 && inv*50 >= n {
+				rate = "systematic"
+			}
+			run.Logf("handler-order inversions: %d of %d (%s, %s, %d emitters, big=%v): %s", inv, n, dir, strings.Join(transports, "+"), emitters, big, rate)
+			run.Violation(vk.Violation{Sub: "handler-order", Fields: map[string]any{"layer": "handler-entry", "rig": "sio-sio", "rate": rate},
+				What:    fmt.Sprintf("%d of %d handler entries (%s, %s, %d emitters, big payloads=%v) ran before an earlier event of the same emitter [%s]", inv, n, dir, strings.Join(transports, "+"), emitters, big, rate),
+				Witness: map[string]any{"dir": dir, "transports": transports, "emitters": emitters, "burst": burst, "inversions": inv, "entries": n, "big_payloads": big}})
 		}
 	}
-	run.Distinct(fmt.Sprintf("handler/%s/emitters=%d", strings.Join(transports, "+"), emitters))
+	run.Distinct(fmt.Sprintf("handler/%s/emitters=%d/big=%v", strings.Join(transports, "+"), emitters, big))
 }
 
 func main() {
@@ -332,10 +350,14 @@ func main() {
 	}
 	gomax := []int{0}
 	_ = gomax
+outer:
 	for rep := 0; rep < reps; rep++ {
 		for _, tr := range []string{"polling", "websocket", "upgraded"} {
 			for _, e := range emitters {
 				for _, b := range bursts {
+					if run.Violations() > 8 {
+						break outer // circuit breaker: on a broken tree every further case costs its full time-out
+					}
 					t0 := time.Now()
 					runS2C(run, wcase{"s2c", tr, e, b})
 					t1 := time.Now()
@@ -349,10 +371,13 @@ func main() {
 		for _, tr := range [][]string{{"polling"}, {"websocket"}, {"polling", "websocket"}} {
 			for _, e := range []int{1, 4, 16} {
 				t0 := time.Now()
-				runHandlerOrder(run, tr, e, bursts[0])
+				runHandlerOrder(run, tr, e, bursts[0], false)
 				if d := time.Since(t0); d > 2*time.Second {
 					run.Logf("slow handler-order case %v e=%d: %v", tr, e, d.Round(time.Millisecond))
 				}
+			}
+			if rep < run.Pick(2, 8) {
+				runHandlerOrder(run, tr, 1+rep%2, 24, true)
 			}
 		}
 		if run.Violations() > 30 {
